@@ -18,7 +18,7 @@ RULE = ("frames from loaded G-sim traces (1-3 ranks): encoded, decoded into s_na
         "Non-trivial: application that selects a proper non-empty subset. Distinct = hash of (frame kind, filter spec, trace).")
 ASSUMPTIONS = ["an empty result is accepted whatever its columns", "a filter whose required column is absent returns the input unchanged (documented)",
                "NameFilter with a symbol table on a frame whose name column holds strings is not exercised (documented to match ids)"]
-PLAN = {"quick": {"shards": 16, "cases": 160, "timeout": 900}, "thorough": {"shards": 16, "cases": 4000, "timeout": 3400}}
+PLAN = {"quick": {"shards": 16, "cases": 320, "timeout": 900}, "thorough": {"shards": 16, "cases": 4000, "timeout": 3400}}
 _CLS = ("IterationFilter", "IterationIndexFilter", "RankFilter", "TimeRangeFilter", "NameFilter", "GPUKernelFilter", "CPUOperatorFilter",
         "CompositeFilter", "MemCopyEventFilter")
 FLOORS = {"quick": dict({"distinct_nontrivial": 100, "applications": 4000, "proper_subset_results": 1500, "decoded_name_filters": 150,
